@@ -436,20 +436,29 @@ PROPS['C05'] = dict(
 
 
 _C04_RPCS = ['SuggestTrials_w', 'SuggestTrials_v', 'CreateTrial', 'CompleteTrial', 'AddTrialMeasurement', 'StopTrial',
-             'DeleteTrial', 'DeleteStudy', 'UpdateMetadata', 'SetStudyState', 'CreateStudy', 'CheckTrialEarlyStoppingState']
+             'DeleteTrial', 'DeleteStudy', 'UpdateMetadata', 'SetStudyState', 'CreateStudy', 'CheckTrialEarlyStoppingState',
+             'DeleteTrial_requested']
 PROPS['C04'] = dict(
     level='model_checking',
     encoded=['VizierServicer.* RPCs with their lock tables (_owner_name_to_lock, _study_name_to_lock, _operation_lock)',
              'NestedDictRAMDataStore.*'],
-    bounds='all ordered pairs (A, B) of 12 RPC kinds; A suspended before its k-th datastore operation for every k (0..11), B '
-           'runs until it finishes or blocks, A resumes; executed with two real threads; compared with A;B and B;A',
-    outside='more than one preemption; three concurrent calls; SQL datastore; pre-states other than the stated one',
+    bounds='all ordered pairs (A, B) of 13 RPC kinds; A suspended before its k-th datastore operation for every k (0..11), B '
+           'runs until it finishes or blocks, A resumes; executed with two real threads; compared with A;B and B;A; '
+           'all ordered triples of 8 RPC kinds likewise (B then C started while A is suspended; 6 serial orders)',
+    outside='more than one preemption; four or more concurrent calls, triples outside the 8-kind menu; pre-states other than the stated one',
     assumptions=['one preemption point per schedule; RAM datastore operations are atomic (datastore._lock)'],
     obligations=[
         O('C04.pair_a%d' % i, 'harness.c04_schedules', 'pair', 240, 900,
           'A = %s against every B and every preemption point: outcome serialisable, no deadlock' % n,
-          'B over 12 RPC kinds, k in 0..11', env={'VERIF_SLICE': str(i)}, no_validate=True)
+          'B over 13 RPC kinds, k in 0..11', env={'VERIF_SLICE': str(i)}, no_validate=True)
         for i, n in enumerate(_C04_RPCS)
+    ] + [
+        O('C04.triple_a%d' % i, 'harness.c04_schedules', 'triple', 300, 900,
+          'three concurrent calls, A = %s suspended at its k-th datastore operation while B then C run until they finish '
+          'or block: outcome equals one of the 6 serial orders, no deadlock' % n,
+          'B, C over 8 RPC kinds, k in 0..9', env={'VERIF_SLICE': str(i)}, no_validate=True)
+        for i, n in enumerate(['CreateTrial', 'DeleteStudy', 'SuggestTrials_v', 'CompleteTrial', 'UpdateMetadata',
+                               'SetStudyState', 'DeleteTrial', 'DeleteTrial_requested'])
     ])
 
 
@@ -580,10 +589,10 @@ PROPS['C02']['obligations'].append(
 PROPS['C04']['obligations'] += [
     O('C04.pair_sql_a%d' % i, 'harness.c04_schedules', 'pair', None, 900,
       'same schedules on the SQL datastore (in-memory sqlite, one shared connection): A = %s' % n,
-      'B over 12 RPC kinds, k in 0..11', env={'VERIF_SLICE': str(i), 'VERIF_C04_SQL': '1'}, no_validate=True)
+      'B over 13 RPC kinds, k in 0..11', env={'VERIF_SLICE': str(i), 'VERIF_C04_SQL': '1'}, no_validate=True)
     for i, n in enumerate(_C04_RPCS)
 ]
-PROPS['C04']['outside'] = 'more than one preemption; three concurrent calls; pre-states other than the stated one'
+PROPS['C04']['outside'] = 'more than one preemption; four or more concurrent calls, triples outside the 8-kind menu; pre-states other than the stated one'
 PROPS['C04']['encoded'] += ['SQLDataStore.* (thorough tier)']
 
 
